@@ -477,7 +477,7 @@ func (g *Gen) weightPick(inBlock bool) SKind {
 	w := []int{c.WVar, c.WPrint, c.WEval, 0, c.WDef, c.WBind}
 	if inBlock {
 		w[3] = c.WExpr
-		w[5] = c.WBind / 8
+		w[5] = (c.WBind + 3) / 4
 	}
 	if g.M.Depth() >= c.MaxNest {
 		w[4] = 0
